@@ -596,6 +596,19 @@ def merge(c, a, b):
     from .strings import XStr, str_merge
     if isinstance(a, (str, XStr)) and isinstance(b, (str, XStr)):
         return str_merge(c, a, b)
+    from . import ext as _ext
+    if isinstance(a, _ext.SByte1) and isinstance(b, _ext.SByte1):
+        return _ext.SByte1(merge(c, a.nonempty, b.nonempty), merge(c, a.code, b.code))
+    if isinstance(a, (_ext.SBytes, bytes)) and isinstance(b, (_ext.SBytes, bytes)):
+        def sb(x):
+            if isinstance(x, bytes):
+                arr = z3.K(z3.IntSort(), z3.IntVal(0))
+                for i, v in enumerate(x):
+                    arr = z3.Store(arr, i, v)
+                return _ext.SBytes(z3.IntVal(len(x)), arr)
+            return x
+        a, b = sb(a), sb(b)
+        return _ext.SBytes(z3.If(c, a.n, b.n), z3.If(c, a.arr, b.arr))
     raise CannotMerge(f'{type(a).__name__} / {type(b).__name__}')
 
 
@@ -605,6 +618,8 @@ def merge(c, a, b):
 
 def _walk_children(v):
     if isinstance(v, SObj):
+        return v.fields.values()
+    if type(v).__name__ == 'SExt':
         return v.fields.values()
     if isinstance(v, SList):
         return v.items
